@@ -1087,6 +1087,22 @@ func rulePreloadBound(c *Ctx, rule string) {
 		c.und(rule, key, fn.Pos(), "the callback call was not found")
 		return
 	}
+	// the report itself may be guarded: position >= start follows from the comparisons dominating the call
+	// (one loop for preload and scan, reporting only from the base that completes the first k-mer on)
+	{
+		env := &linEnv{noInline: true}
+		g := linAtom(fn.Params[2].Name()).add(linOf(call.Call.Args[1], env), -1)
+		var facts []lin
+		for _, bf := range branchesAt(call.Block()) {
+			if f, ok := strictForm(bf.cond, bf.edge, env); ok {
+				facts = append(facts, f)
+			}
+		}
+		if provable(g, facts) {
+			c.ok(rule, key, call.Pos(), "the call of the callback is dominated by comparisons from which position >= start follows: no window before the requested range is reported")
+			return
+		}
+	}
 	P, aForm, ok := phiPlusForm(call.Call.Args[1], &linEnv{noInline: true})
 	if !ok {
 		c.und(rule, key, call.Pos(), "the reported position is not a loop counter plus an offset")
